@@ -9,32 +9,37 @@ Section Thms.
 Variable okta : option (bs -> bs).
 Variable disable : bool.
 Variable backend : bs -> bs -> bool.
+Variable automation : bs -> bool.
 
 (* every credential path hands on the account the typed name stands for - and on the password paths
    that is the one account the backend was asked about, and it accepted the password for it *)
 Theorem path_identity k typed pw id :
-  admitted okta disable backend k typed pw = Some id ->
+  admitted okta disable backend automation k typed pw = Some id ->
   id = account_of okta disable k typed /\
-  (k <> KCert -> p_asked (cred_path okta disable backend k typed pw) = Some id /\ backend id pw = true).
+  (password_kind k = true -> p_asked (cred_path okta disable backend automation k typed pw) = Some id /\ backend id pw = true) /\
+  (k = KIpCert -> automation id = true).
 Proof.
-  unfold admitted. destruct k; cbn [cred_path account_of].
+  unfold admitted. destruct k; cbn [cred_path account_of password_kind].
   - unfold login_handler. cbn [andb].
     destruct (is_nil (strip_crlf typed) || is_nil pw); cbn [p_identity p_asked]; [discriminate|].
     destruct (backend (normalise okta disable (strip_crlf typed)) pw) eqn:B; [|discriminate].
-    intro H. inversion H. subst. split; [reflexivity|]. intros _. split; [reflexivity|exact B].
+    intro H. inversion H. subst. split; [reflexivity|]. split; [|discriminate]. intros _. split; [reflexivity|exact B].
   - unfold login_handler. cbn [andb p_identity p_asked].
     destruct (backend (normalise okta disable typed) pw) eqn:B; [|discriminate].
-    intro H. inversion H. subst. split; [reflexivity|]. intros _. split; [reflexivity|exact B].
+    intro H. inversion H. subst. split; [reflexivity|]. split; [|discriminate]. intros _. split; [reflexivity|exact B].
   - unfold basic_branch. cbn [p_identity p_asked].
     destruct (backend (normalise okta disable typed) pw) eqn:B; [|discriminate].
-    intro H. inversion H. subst. split; [reflexivity|]. intros _. split; [reflexivity|exact B].
+    intro H. inversion H. subst. split; [reflexivity|]. split; [|discriminate]. intros _. split; [reflexivity|exact B].
   - unfold cert_branch. cbn [p_identity]. destruct (is_nil typed); [discriminate|].
-    intro H. inversion H. split; [reflexivity|]. intro N. exfalso. apply N. reflexivity.
+    intro H. inversion H. split; [reflexivity|]. split; discriminate.
+  - unfold ip_cert_branch. cbn [p_identity]. destruct (is_nil typed); [discriminate|].
+    destruct (automation typed) eqn:AU; [|discriminate].
+    intro H. inversion H. subst. split; [reflexivity|]. split; [discriminate|]. intros _. exact AU.
 Qed.
 
 (* the backend is asked about at most one account, and never about another one than account_of *)
 Theorem path_asks_account k typed pw a :
-  p_asked (cred_path okta disable backend k typed pw) = Some a -> a = account_of okta disable k typed.
+  p_asked (cred_path okta disable backend automation k typed pw) = Some a -> a = account_of okta disable k typed.
 Proof.
   destruct k; cbn [cred_path account_of].
   - unfold login_handler. cbn [andb]. destruct (is_nil (strip_crlf typed) || is_nil pw); cbn [p_asked]; [discriminate|].
@@ -42,60 +47,62 @@ Proof.
   - unfold login_handler. cbn [andb p_asked]. intro H. inversion H. reflexivity.
   - unfold basic_branch. cbn [p_asked]. intro H. inversion H. reflexivity.
   - unfold cert_branch. cbn [p_asked]. discriminate.
+  - unfold ip_cert_branch. cbn [p_asked]. discriminate.
 Qed.
 
 Variable expand : bs -> bs -> option bs.
 
 Lemma ident_request_target st0 q0 now k typed pw :
-  q_target (ident_request okta disable backend st0 q0 now k typed pw) = q_target q0.
+  q_target (ident_request okta disable backend automation st0 q0 now k typed pw) = q_target q0.
 Proof.
   unfold ident_request. destruct k; try reflexivity;
-    destruct (admitted okta disable backend _ typed pw); reflexivity.
+    destruct (admitted okta disable backend automation _ typed pw); reflexivity.
 Qed.
 
 Lemma ident_request_key st0 q0 now k typed pw :
-  q_key (ident_request okta disable backend st0 q0 now k typed pw) = q_key q0.
+  q_key (ident_request okta disable backend automation st0 q0 now k typed pw) = q_key q0.
 Proof.
   unfold ident_request. destruct k; try reflexivity;
-    destruct (admitted okta disable backend _ typed pw); reflexivity.
+    destruct (admitted okta disable backend automation _ typed pw); reflexivity.
 Qed.
 
 (* a certificate for a request authenticated on ANY credential path: the path admitted the account the
    typed name stands for, the certificate names exactly that account, the URL segment is that account
    byte for byte, and on the password paths the backend accepted the password for that account *)
 Theorem ident_issued st0 q0 now k typed pw u c :
-  ident_certgen okta disable backend expand st0 q0 now k typed pw = Issued u c ->
-  admitted okta disable backend k typed pw = Some (account_of okta disable k typed) /\
+  ident_certgen okta disable backend automation expand st0 q0 now k typed pw = Issued u c ->
+  admitted okta disable backend automation k typed pw = Some (account_of okta disable k typed) /\
   d_names c = [account_of okta disable k typed] /\
   q_target q0 = account_of okta disable k typed /\
   (exists ed, q_key q0 = Some (d_key c, ed)) /\
-  (k <> KCert -> backend (account_of okta disable k typed) pw = true).
+  (password_kind k = true -> backend (account_of okta disable k typed) pw = true) /\
+  (k = KIpCert -> automation (account_of okta disable k typed) = true).
 Proof.
   unfold ident_certgen. intro H.
   pose proof (binding_fields _ _ _ _ _ _ _ H) as [[level P] [DN [T [K _]]]].
   rewrite ident_request_target in T. rewrite ident_request_key in K.
-  assert (A : exists id, admitted okta disable backend k typed pw = Some id).
-  { destruct (admitted okta disable backend k typed pw) as [id|] eqn:E; [eauto|]. exfalso.
+  assert (A : exists id, admitted okta disable backend automation k typed pw = Some id).
+  { destruct (admitted okta disable backend automation k typed pw) as [id|] eqn:E; [eauto|]. exfalso.
+    assert (NS0 : forall cc, ~ names_somebody (ident_server okta disable backend automation st0 k typed pw) cc).
+    { intros cc NS. unfold names_somebody, ident_server in NS. cbn in NS. rewrite E in NS. apply NS. reflexivity. }
     destruct P as [w QC _ _ _|b QB OK _ _ _|cc QT NS _ _ _|cc QT NS _ _ _|cc QT NS _ _ _ _];
+      try (exact (NS0 _ NS));
       unfold ident_request in *; rewrite E in *; destruct k; cbn in *; try discriminate.
-    - inversion QB. subst b. cbn in OK. discriminate.
-    - unfold names_somebody, ident_server in NS. cbn in NS. rewrite E in NS. apply NS. reflexivity.
-    - unfold names_somebody, ident_server in NS. cbn in NS. rewrite E in NS. apply NS. reflexivity.
-    - unfold names_somebody, ident_server in NS. cbn in NS. rewrite E in NS. apply NS. reflexivity. }
-  destruct A as [id A]. pose proof (path_identity _ _ _ _ A) as [ID B].
+    inversion QB. subst b. cbn in OK. discriminate. }
+  destruct A as [id A]. pose proof (path_identity _ _ _ _ A) as [ID [B AU]].
   unfold ident_server in DN, T. cbn [with_name s_name] in DN, T. rewrite A in DN, T.
-  rewrite ID in A, DN, T, B.
+  rewrite ID in A, DN, T, B, AU.
   split; [exact A|]. split; [exact DN|]. split; [exact T|]. split; [exact K|].
-  intro N. apply B. exact N.
+  split; [intro N; apply B; exact N|exact AU].
 Qed.
 
 (* a request on behalf of any other spelling than the account - in particular the name as it was typed,
    when that is not the normalised one - is refused, whatever the credential path *)
 Theorem ident_other_spelling_refused st0 q0 now k typed pw :
   q_target q0 <> account_of okta disable k typed ->
-  exists code, ident_certgen okta disable backend expand st0 q0 now k typed pw = Refused code.
+  exists code, ident_certgen okta disable backend automation expand st0 q0 now k typed pw = Refused code.
 Proof.
-  intro NE. destruct (ident_certgen okta disable backend expand st0 q0 now k typed pw) as [u c|code] eqn:E; [|eauto].
+  intro NE. destruct (ident_certgen okta disable backend automation expand st0 q0 now k typed pw) as [u c|code] eqn:E; [|eauto].
   exfalso. apply ident_issued in E. destruct E as [_ [_ [T _]]]. exact (NE T).
 Qed.
 End Thms.
